@@ -4,5 +4,5 @@ From ClapModel Require Import Parse.Cmd Parse.Build Parse.Valid Parse.Matcher Pa
 Extraction Language OCaml.
 Separate Extraction
   Cmd.arg_new Cmd.group_new Cmd.cmd_new Cmd.settings_none Cmd.settings_or
-  Build.build_self Build.build_recursive Valid.valid Valid.assert_app
+  Build.build_self Build.build_recursive Cmd.find_subcommand Valid.valid Valid.assert_app
   Parser.parse_top Parser.do_parse Errors.all_kinds Errors.exit_code Errors.use_stderr.
